@@ -31,6 +31,7 @@ type Obligation struct {
 	Block   int  // block the obligation belongs to (-1: none): only assertions of its ancestors are relevant
 	Anc     map[int]bool // explicit set of relevant blocks (obligations split over the arms of a wide join)
 	replayed bool
+	replayPassed bool // a replay ran on the real code and passed
 	candidate bool
 	clauseTagged bool // the clause this obligation comes from carries its own property tags
 	fv *FuncVC
@@ -172,6 +173,7 @@ type FuncVC struct {
 	warnings   []string
 	trustedUse map[string]bool
 	unmodelled map[string]bool
+	helpers    map[string]bool // module callees without contract called by this function
 	activeProp string
 	failed     error
 	logKeys    map[string][]Sort // tracked call log key -> arg sorts (recv first)
